@@ -45,7 +45,8 @@ while i < len(log):
         'check_exit': rc, 'violation_lines': nv,
         'caught': bool(rc == 1 and nv > 0),
         'with_concrete_replay': any('VIOLATION' in l and 'no-failing-input-found' not in l for l in detail),
-        'check_output_tail': [l for l in detail if l.strip()][:4],
+        'signatures': sorted({l.split(' ', 2)[2] for l in detail if l.startswith('SIGNATURE ') and len(l.split(' ', 2)) > 2 and l.split(' ', 2)[2]}),
+        'check_output_tail': [l for l in detail if l.strip() and not l.startswith('SIGNATURE')][:4],
         'note': note,
     })
     json.dump(meta, open(os.path.join(dst, 'meta.json'), 'w'), indent=1)
